@@ -23,22 +23,9 @@ def run(res):
     if env["VERIF_TIER"] != "thorough":
         # the histories are short and need no waiting: twice the default number still fits the quick budget
         env.update({"L1_PER_WORKER": os.environ.get("L1_PER_WORKER", "120"), "L1_PER_TIMED_WORKER": os.environ.get("L1_PER_TIMED_WORKER", "24")})
-    l1.run(res, "C06", "pubsub", "Model.PubSub Model.PubSubOracle", "pubsub_model", "pubsub_init", ORACLES,
-           "SUB/XSUB/PUB behaviour differs from the model (Model/PubSub.v): which context gets an arriving message, what Unsubscribe/READQ-LEN "
+    l1.run(res, "C06", "pubsub", "Model.PubSub Model.PubSubOracle", "(pubsub_model true)", "pubsub_init", ORACLES,
+           "SUB/XSUB/PUB behaviour differs from the model (Model/PubSub.v, repaired READQ-LEN semantics): which context gets an arriving message, what Unsubscribe/READQ-LEN "
            "leave in the queue, what overflow drops, which pipes a published message is written to", env=env)
-    # finer signatures for the two defects of the code as found, so that known_findings.json can name exactly them
-    out = []
-    for sig, text, replay, found in res.violations:
-        h = replay.get("history", "") if isinstance(replay, dict) else ""
-        if sig == "stuck:pubsub" and "OReadQLen 0%Z" in h and "OTtl 1%Z" in h:
-            sig = "stuck:sub:readqlen0"
-            text = ("SUB READQ-LEN 0: a matching message arriving with no Recv parked blocks the receiver goroutine in `c.recvQ <- m` while it holds the "
-                    "socket lock; the message is never delivered and every later call parks on the mutex. " + text)
-        if sig == "oracle:c06_panic:pubsub" and "OTtl 1%Z" in h and "OReadQLen (-" in replay.get("failing_step", ""):
-            sig = "panic:sub:readqlen-negative"
-            text = "SUB SetOption(READQ-LEN, v<0) is accepted and panics in make(chan) (xsub rejects it with ErrBadValue). " + text
-        out.append((sig, text, replay, found))
-    res.violations[:] = out
     res.coverage["trusted_base"] = core.COQ_TRUSTED + [
         "hand-written model Model/PubSub.v tied by correspondence at quiescence granularity: each stimulus (one API call, one arriving message, one pipe "
         "event, one released transport send, one sleep) is atomic in the model; finer interleavings are covered neither by the theorems nor by the harness",
@@ -46,10 +33,13 @@ def run(res):
         "mock subscriber pipes whose sends the harness can hold, release or fail; quiescence is detected from runtime.Stack",
         "situations where Go itself chooses (two Recv calls parked on one context, Recv on a closed context/socket with messages still queued, a deadline "
         "within 15 ms of a step boundary) are marked ambiguous by the model and not compared from there on (counted in histories_truncated_as_ambiguous)",
-        "READQ-LEN 0 on SUB is exercised only as a rendezvous (Recv parked first) and by one directed probe that runs last in its worker process, because it "
-        "wedges the socket (reported as known finding); histories with timing gaps over 12 ms are discarded and counted",
+        "a history that ends with goroutines parked on a mutex is reported (STUCK) and ends its worker process, whose remaining histories are not generated; "
+        "API calls run under recover(), a panic is reported as error class 98 and flagged by the c06_panic oracle; histories with timing gaps over 12 ms are "
+        "discarded and counted",
     ]
     res.assumptions += [
+        "READQ-LEN 0 makes a SUB context/XSUB socket a rendezvous: a message that no parked Recv takes at the moment of arrival is dropped (by design of the "
+        "repaired code; C06_readqlen_zero_drops), which the property's 'losing some only when a queue overflows' is read to include",
         "changing READQ-LEN abandons the messages queued on that context/socket (sub.go and xsub.go replace the channel): treated as a reconfiguration, "
         "not as a loss covered by 'losing some only when a queue overflows'; the model follows the code",
         "the sequential oracles judge each publisher pipe's order and at-most-once on the bodies the harness tags with (pipe, sequence number); "
